@@ -106,6 +106,7 @@ def _work(batch):
     for inst in batch:
         try:
             r = _MODULE.run_instance(inst, _TIER)
+            r.nontrivial = {k if isinstance(k, int) else hash(k) for k in r.nontrivial}  # bounded memory
             out.merge(r)
         except engine.InfraError as e:
             out.infra.append(f"{type(e).__name__}: {e} on instance {str(inst)[:300]}")
